@@ -355,11 +355,13 @@ class HistGen:
     def upstream_packet(self, s, dst_ip=None):
         """a whole IP-like packet, framed as the harness' compress2 replacement does, in fragments"""
         r = self.rng
-        n = r.choice([24, 40, 90, 200, 400])
+        # now and then a packet too short to carry the tun + IP header (no destination field: it can only go to the tun device)
+        n = r.choice([24, 40, 90, 200, 400, r.choice([1, 4, 19, 20, 23])])
         ip = bytearray(r.randrange(256) for _ in range(n))
         if dst_ip is None:
             dst_ip = r.choice(self.tun_ips + [0x08080808, 0x0a000001])
-        ip[20:24] = bytes([(dst_ip >> 24) & 255, (dst_ip >> 16) & 255, (dst_ip >> 8) & 255, dst_ip & 255])
+        if n >= 24:
+            ip[20:24] = bytes([(dst_ip >> 24) & 255, (dst_ip >> 16) & 255, (dst_ip >> 8) & 255, dst_ip & 255])
         comp = bytes([0x5A]) + bytes(ip)
         if r.random() < 0.08:
             comp = bytes([0x5B]) + comp[1:]
@@ -390,7 +392,9 @@ class HistGen:
     def tun(self, dst_ip=None, n=None):
         r = self.rng
         if n is None:
-            n = r.choice([24, 60, 150, 300, 700, 1400])
+            # now and then a frame too short for the tun + IP header: it has no destination (what the previous frame left in the
+            # read buffer must not route it)
+            n = r.choice([24, 60, 150, 300, 700, 1400, 24, 60, 150, r.choice([1, 4, 19, 20, 23])])
         ip = bytearray(r.randrange(256) for _ in range(n))
         if dst_ip is None:
             dst_ip = r.choice(self.tun_ips[:4] + [0x08080808])
